@@ -10,13 +10,22 @@ def declare(E):
     E.declare_ghost(pending="int")
     E.declare_class("paramiko.sftp_file.SFTPFile", {
         "sftp": "opaque:Client", "handle": "bytes", "pipelined": "bool", "_reqs": "list[int]", "_realpos": "nat",
-        "_closed": "bool", "MAX_REQUEST_SIZE": "const:32768"})
-    E.opaque_attrs = dict(getattr(E, "opaque_attrs", {}), Client={"sock": "opaque:ChanSock"})
+        "_closed": "bool", "MAX_REQUEST_SIZE": "const:32768", "_saved_exception": "opt[opaque:Exc]"})
+    E.opaque_attrs = dict(getattr(E, "opaque_attrs", {}), Client={"sock": "opaque:ChanSock", "_expecting": "opaque:Expecting"})
+    E.opaque_exc = dict(getattr(E, "opaque_exc", {}), Exc="Exception")
+    # a queued request that is no longer expected was answered while another response was waited for: the dispatch in
+    # SFTPClient._read_response handed its status to this file's _async_response (writes are registered under their file)
+    E.contract("Expecting.__contains__", argnames=["self", "req"], returns="bool",
+               ghost={"pending": "ghost('pending') - (0 if result else 1)"})
     E.contract("ChanSock.recv_ready", argnames=["self"], returns="bool")
     E.contract("binascii.hexlify", argnames=["data"], returns="bytes", ensures=["len(result) == 2 * len(data)", "utf8ok(result)"])
     E.contract("paramiko.sftp_file.hexlify", argnames=["data"], returns="bytes", ensures=["utf8ok(result)"])
     # a request goes out: one more status outstanding; a status is read: one fewer (a refusal is raised as IOError)
+    E.declare_ghost(this_file="int")
     E.contract("Client._async_request", argnames=["self", "fileobj", "t", "a", "b", "c"], returns="int",
+               # a response that arrives while another one is waited for goes to the object it was registered under
+               # (SFTPClient._read_response, verified below); registered under nothing, a refusal would be dropped
+               requires={"write_requests_are_registered_under_their_file": "implies(t == 6, opaque_id(fileobj) == ghost('this_file'))"},
                ghost={"pending": "ghost('pending') + (1 if t == 6 else 0)"})
     E.contract("Client._read_response", argnames=["self", "waitfor"], returns="tuple[int,obj:Message]",
                ghost={"pending": "ghost('pending') - 1"},
@@ -32,18 +41,77 @@ def declare(E):
                ensures=[QUEUE, "self._closed"],
                modifies=["self._closed", "self._reqs", "ghost:pending"], raises={"OSError": "True", "SSHException": "True"})
     E.contract(F + "_write", params={"data": "bytes"},
-               requires={"outstanding_statuses_are_the_queued_requests": QUEUE, "some_data": "len(data) >= 1"},
+               requires={"outstanding_statuses_are_the_queued_requests": QUEUE, "some_data": "len(data) >= 1",
+                         "this_file": "ghost('this_file') == opaque_id(self)"},
                ensures={"queue_still_matches": QUEUE,
                         "without_pipelining_every_status_is_read_before_returning": "implies(not self.pipelined, ghost('pending') == 0)",
                         "writes_at_most_one_request": "1 <= result and result <= len(data) and result <= 32768"},
                loops={0: dict(inv=[QUEUE], havoc_ghosts=["pending"], vars={"req": "int", "t": "int", "msg": "obj:Message"})},
                returns="int", raises={"OSError": "True", "SSHException": "True", "SFTPError": "True"})
     E.contract(F + "_close", params={"async_": "bool"},
-               requires={"outstanding_statuses_are_the_queued_requests": QUEUE},
+               requires={"outstanding_statuses_are_the_queued_requests": QUEUE, "this_file": "ghost('this_file') == opaque_id(self)"},
                ensures={"every_write_status_was_read_before_close_returns":
-                        "implies(not async_ and not old(self._closed), ghost('pending') == 0)"},
+                        "implies(not async_ and not old(self._closed), ghost('pending') == 0)",
+                        "a_refusal_saved_by_the_response_dispatch_was_raised":
+                        "implies(not async_ and not old(self._closed), self._saved_exception is None)"},
                loops={0: dict(inv=[QUEUE], havoc_ghosts=["pending"], vars={"req": "int", "t": "int", "msg": "obj:Message"})},
-               returns="none", raises={"OSError": "True", "SSHException": "True", "SFTPError": "True"})
+               returns="none", raises={"OSError": "True", "SSHException": "True", "SFTPError": "True", "Exception": "True"})
+
+
+def declare_status(E):
+    """the response dispatch hands a write status that arrived out of turn to SFTPFile._async_response: a refusal is
+    saved there and raised by the next _check_exception (close() at the latest)"""
+    E.declare_ghost(refused="bool")
+    E.contract("Client._convert_status", argnames=["self", "msg"], returns="none", ghost={"refused": "False"},
+               raises={"OSError": {"when": "True", "ghost": {"refused": "True"}},
+                       "EOFError": {"when": "True", "ghost": {"refused": "True"}}})
+    E.contract(F + "_async_response::part[status]",
+               fragment=dict(first="if t == CMD_STATUS:", last="if t == CMD_STATUS:"),
+               params={"self": "obj:SFTPFile", "t": "int", "msg": "obj:Message", "num": "int"},
+               ensures={"a_refused_status_is_saved_for_the_next_operation":
+                        "implies(t == 101 and ghost('refused'), self._saved_exception is not None)"},
+               returns="none", raises={})
+    E.contract(F + "_check_exception",
+               ensures={"returns_only_if_nothing_was_saved": "old(self._saved_exception) is None and self._saved_exception is None"},
+               returns="none",
+               raises={"Exception": {"when": "old(self._saved_exception) is not None", "ensures": ["self._saved_exception is None"]}})
+
+
+def declare_dispatch(E):
+    """SFTPClient._read_response: every response taken off the wire is either returned to the caller waiting for it
+    (a refusal converted into an exception) or handed to the object its request was registered under"""
+    K = "paramiko.sftp_client.SFTPClient."
+    E.declare_ghost(owed="int", last_owner="int", last_num="int")
+    E.declare_class("paramiko.sftp_client.SFTPClient", {"_expecting": "opaque:ExpMap", "_lock": "opaque:Lock"})
+    E.contract("paramiko.sftp.BaseSFTP._read_packet", returns="tuple[int,bytes]", requires=[], ensures=["len(result[1]) >= 4"],
+               raises={"EOFError": "True", "OSError": "True", "SSHException": "True"})
+    E.contract("paramiko.sftp.BaseSFTP._log", params={"level": "int", "msg": "str"}, returns="none")
+    E.contract(K + "_log", params={"level": "int", "msg": "str"}, returns="none")
+    E.contract(K + "_convert_status", params={"msg": "obj:Message"}, returns="none",
+               raises={"OSError": "True", "EOFError": "True"})
+    E.contract("ExpMap.__contains__", argnames=["self", "k"], returns="bool")
+    # the owner a request was registered under: an object, or the class NoneType for "nobody".  Taking an owned
+    # request out of the table creates the debt of delivering its response
+    E.contract("ExpMap.__getitem__", argnames=["self", "k"], returns="union[opaque:Owner,class:NoneType]",
+               ghost={"last_owner": "opaque_id(result)", "last_num": "k", "owed": "0 if opaque_id(result) == -2 else 1"})
+    E.contract("ExpMap.__delitem__", argnames=["self", "k"], returns="none")
+    E.contract("Owner._async_response", argnames=["self", "t", "msg", "num"], returns="none",
+               requires={"handed_to_the_owner_of_this_very_request": "opaque_id(self) == ghost('last_owner') and num == ghost('last_num')"},
+               ghost={"owed": "0"},
+               raises={"SFTPError": {"when": "True", "ghost": {"owed": "0"}}, "Exception": {"when": "True", "ghost": {"owed": "0"}}})
+    SETTLED = "ghost('owed') == 0"
+    E.contract(K + "_read_response", params={"waitfor": "opt[int]"},
+               requires={"nothing_owed_on_entry": SETTLED},
+               ensures={"a_response_that_is_not_returned_was_handed_to_the_owner_of_its_request":
+                        "implies(isnone(result[0]), ghost('owed') == 0)",
+                        "returns_only_the_awaited_response": "implies(notnone(result[0]), notnone(waitfor) and ghost('last_num') == waitfor)"},
+               loops={0: dict(inv=[SETTLED], havoc_ghosts=["owed", "last_owner", "last_num"],
+                              vars={"t": "int", "data": "bytes", "msg": "obj:Message", "num": "int",
+                                    "fileobj": "union[opaque:Owner,class:NoneType]"})},
+               returns="tuple[opt[int],opt[obj:Message]]",
+               raises={"SSHException": {"when": "True", "ensures": [SETTLED]}, "OSError": "True",
+                       "EOFError": "True", "SFTPError": {"when": "True", "ensures": [SETTLED]},
+                       "Exception": {"when": "True", "ensures": [SETTLED]}})
 
 
 def declare_transfer(E):
